@@ -72,6 +72,9 @@ func hcGenExchange(rng *sim.Rand, prop string, sc *hcScenario) hcExchange {
 		ex.RChunked = rng.Bool(0.3)
 		ex.RGzip = rng.Bool(0.25)
 		ex.RInc = rng.Bool(0.3)
+		if ex.RGzip && ex.RBodyLen >= 100 && rng.Bool(0.08) {
+			ex.RGzipBad = rng.Pick(1, 2)
+		}
 	}
 	return ex
 }
@@ -133,6 +136,14 @@ func hcGenC03(rng *sim.Rand, tier string) interface{} {
 	if rng.Bool(0.25) {
 		sc.ProxyMax = -1
 	}
+	if rng.Bool(0.15) {
+		// servers discovered through the service registry (keepHost cannot be set on them)
+		sc.Discovered, sc.KeepHost = true, false
+		sc.ServerForm = rng.PickStr("ip4", "host")
+	}
+	if rng.Bool(0.2) {
+		sc.Mirror = rng.PickStr("ok", "ok", "slow", "reset", "big", "down")
+	}
 	hcGenNet(rng, sc)
 	nc := rng.Range(1, 3)
 	for c := 0; c < nc; c++ {
@@ -147,6 +158,7 @@ func hcGenC03(rng *sim.Rand, tier string) interface{} {
 				if ex.Method == "GET" {
 					ex.BodyLen = 0
 				}
+				ex.RGzipBad = 0 // the cache oracle compares decoded bodies
 			}
 			if rng.Bool(0.1) && ex.RBodyLen > 100 && sc.Retry <= 1 && ex.Method != "HEAD" {
 				// backend dies in the middle of the body (buffered and stream mode)
@@ -155,6 +167,9 @@ func hcGenC03(rng *sim.Rand, tier string) interface{} {
 			}
 			if sc.Retry > 1 && rng.Bool(0.5) {
 				ex.FailFirst = rng.Range(1, sc.Retry-1)
+			}
+			if sc.Mirror != "" && rng.Bool(0.7) {
+				ex.Hdr = append(ex.Hdr, [2]string{"X-Mirror", "1"})
 			}
 			cl.Ex = append(cl.Ex, ex)
 		}
@@ -350,6 +365,15 @@ func hcExec(r *sim.Run, sci interface{}) {
 
 // hcValid keeps the minimiser inside the space the generators draw from.
 func hcValid(sc *hcScenario) bool {
+	if sc.MemCache {
+		for _, cl := range sc.Clients {
+			for _, ex := range cl.Ex {
+				if ex.RGzipBad != 0 {
+					return false
+				}
+			}
+		}
+	}
 	rounds := [][]hcClient{sc.Clients}
 	if sc.Reload != nil {
 		rounds = append(rounds, sc.Reload.Clients)
@@ -374,6 +398,9 @@ func hcValid(sc *hcScenario) bool {
 					if t == "" {
 						return false
 					}
+				}
+				if ex.RGzipBad != 0 && (!ex.RGzip || ex.RBodyLen < 100 || ex.RGzipBad > 2 || ex.RGzipBad < 0) {
+					return false
 				}
 				if ex.Method == "HEAD" && (ex.RReset || ex.RShort > 0) {
 					return false
@@ -404,8 +431,8 @@ func hcShort(b []byte) string {
 
 func (c *hcChain) describe(ex *hcExchange) string {
 	sc := c.sc
-	return fmt.Sprintf("[cfg retry=%d failFirst=%d server=%s memCache=%v byHost=%v keepHost=%v compress=%d respAdaptor=%q reqAdaptor=%q generation=%d cacheSize=%d splitPaths=%v srvMax=%d pathMax=%d poolMax=%d proxyMax=%d] [req %s %s?%s body=%d chunked=%v ae=%q conn=%v hdr=%v] [backend status=%d body=%d chunked=%v gzip=%v short=%d reset=%v hdr=%v]",
-		sc.Retry, ex.FailFirst, c.backAddr, sc.MemCache, sc.ByHost, sc.KeepHost, sc.Compress, sc.RespAdaptor, sc.ReqAdaptor, c.gen, sc.CacheSize, sc.SplitPaths, c.lim.srv, c.lim.path, c.lim.pool, c.lim.proxy,
+	return fmt.Sprintf("[cfg retry=%d failFirst=%d server=%s memCache=%v byHost=%v keepHost=%v compress=%d respAdaptor=%q reqAdaptor=%q generation=%d cacheSize=%d splitPaths=%v mirror=%q discovered=%v srvMax=%d pathMax=%d poolMax=%d proxyMax=%d] [req %s %s?%s body=%d chunked=%v ae=%q conn=%v hdr=%v] [backend status=%d body=%d chunked=%v gzip=%v short=%d reset=%v hdr=%v]",
+		sc.Retry, ex.FailFirst, c.backAddr, sc.MemCache, sc.ByHost, sc.KeepHost, sc.Compress, sc.RespAdaptor, sc.ReqAdaptor, c.gen, sc.CacheSize, sc.SplitPaths, sc.Mirror, sc.Discovered, c.lim.srv, c.lim.path, c.lim.pool, c.lim.proxy,
 		ex.Method, ex.Path, ex.Query, ex.BodyLen, ex.Chunked, ex.AcceptEnc, ex.ConnTokens, ex.Hdr,
 		ex.Status, ex.RBodyLen, ex.RChunked, ex.RGzip, ex.RShort, ex.RReset, ex.RHdr)
 }
@@ -433,6 +460,19 @@ func (c *hcChain) checkC03(id string, ex *hcExchange, res *hcResp) {
 	desc := c.describe(ex)
 	seen := c.seen[id]
 	faulty := ex.RReset || ex.RShort > 0
+	if ex.RGzip && ex.RGzipBad > 0 && ex.RBodyLen >= 100 {
+		// The backend's body is labelled gzip but is not a valid gzip stream: there is
+		// no content to compare bit-exactly. What remains of the statement is the
+		// framing of whatever the client is sent, and that the request was forwarded.
+		r.Probe("c03.backend_body_damaged_gzip")
+		if res.frameErr != "" || res.garbage {
+			r.Violate("C03.frame.malformed/"+c.facts(ex), "%s: response is not well-formed HTTP/1.1: %s (status %d)\n%s", id, res.frameErr, res.status, desc)
+		} else if (res.ioErr != nil || !res.complete) && res.status != 0 && c.lim.proxy != -1 && c.lim.pool != -1 {
+			r.Violate("C03.frame.short-body/"+c.facts(ex), "%s: damaged gzip body from the backend (buffered mode): response ended before its declared end: framing=%s declared Content-Length=%q got %d body bytes, err=%v (status %d)\n%s",
+				id, res.framing, res.hdr.Get("Content-Length"), len(res.body), res.ioErr, res.status, desc)
+		}
+		return
+	}
 	// ---- framing of what the client was sent
 	if res.frameErr != "" || res.garbage {
 		r.Violate("C03.frame.malformed/"+c.facts(ex), "%s: response is not well-formed HTTP/1.1: %s (status %d)\n%s", id, res.frameErr, res.status, desc)
@@ -610,6 +650,9 @@ func (c *hcChain) checkC03(id string, ex *hcExchange, res *hcResp) {
 	if ex.AcceptEnc != "" && strings.Join(seen.hdr.Values("Accept-Encoding"), ",") != ex.AcceptEnc {
 		r.Violate("C03.req.header-lost", "%s: Accept-Encoding: backend saw %q want %q\n%s", id, seen.hdr.Values("Accept-Encoding"), ex.AcceptEnc, desc)
 	}
+	if c.sc.Discovered {
+		r.Probe("c03.server_from_service_registry")
+	}
 	wantHost := "front.example:10080"
 	if c.byName && !c.sc.KeepHost {
 		wantHost = c.backAddr
@@ -617,6 +660,7 @@ func (c *hcChain) checkC03(id string, ex *hcExchange, res *hcResp) {
 	if seen.host != wantHost {
 		r.Violate("C03.req.host", "%s: backend saw Host %q want %q\n%s", id, seen.host, wantHost, desc)
 	}
+	c.checkMirror(id, ex, res)
 	// ---- response side
 	if res.status != ex.Status {
 		r.Violate("C03.resp.status/"+c.facts(ex), "%s: client got status %d, backend sent %d\n%s", id, res.status, ex.Status, desc)
@@ -661,6 +705,60 @@ func (c *hcChain) checkC03(id string, ex *hcExchange, res *hcResp) {
 	}
 	if res.framing == "chunked" {
 		r.Probe("c03.client_got_chunked")
+	}
+}
+
+// checkMirror: the mirror pool gets a copy of the request; whatever its backend
+// does must not show in the client's exchange (asserted by the ordinary checks,
+// which run unchanged), nothing of its answer may reach the client, and what it
+// was sent - if it got the request at all: the copy is abandoned when the main
+// exchange ends first - is the client's request (buffered mode; a streamed body
+// cannot be copied and is not compared).
+func (c *hcChain) checkMirror(id string, ex *hcExchange, res *hcResp) {
+	if c.sc.Mirror == "" {
+		return
+	}
+	r := c.r
+	wanted := false
+	for _, kv := range ex.Hdr {
+		if http.CanonicalHeaderKey(kv[0]) == "X-Mirror" && kv[1] == "1" {
+			wanted = true
+		}
+	}
+	if res.hdr.Get("X-From-Mirror") != "" || res.status == 418 || bytes.Contains(res.body, []byte("mirror backend")) {
+		r.Violate("C03.mirror.answer-reached-client", "%s: the client was sent (part of) the mirror backend's answer: status %d\n%s", id, res.status, c.describe(ex))
+	}
+	ms := c.mseen[id]
+	if ms == nil || ms.count == 0 {
+		if wanted {
+			r.Probe("c03.mirror_copy_not_delivered")
+		}
+		return
+	}
+	if !wanted {
+		r.Violate("C03.mirror.unmatched-request-mirrored", "%s: the request does not match the mirror pool's filter but the mirror backend got it\n%s", id, c.describe(ex))
+		return
+	}
+	r.Probe("c03.mirror_copy_delivered")
+	if ms.count > 1 {
+		// the Go transport itself re-sends an idempotent request when a reused
+		// keep-alive connection dies before any answer byte (mirror mode "reset")
+		r.Probe("c03.mirror_copy_resent_by_transport")
+	}
+	wantPath, _ := urlUnescapePath(ex.Path)
+	if ms.method != ex.Method || ms.path != wantPath || ms.query != ex.Query {
+		r.Violate("C03.mirror.request-line", "%s: mirror backend got %s %s?%s\n%s", id, ms.method, ms.path, ms.query, c.describe(ex))
+	}
+	if c.reqLimit(ex) >= 0 && ms.bodyErr == nil {
+		got := ms.body
+		if c.sc.ReqAdaptor != "" {
+			if d, err := hcDecode(got, ms.hdr); err == nil {
+				got = d
+			}
+		}
+		if want := hcBody("q"+id, ex.BodyLen, ex.Inc); !bytes.Equal(got, want) {
+			r.Violate("C03.mirror.body", "%s: mirror backend got body %s, want %s\n%s", id, hcShort(got), hcShort(want), c.describe(ex))
+		}
 	}
 }
 
@@ -800,7 +898,7 @@ var hcStub = []string{"network: simnet (segmentation, latency, reset)", "clients
 func TestVerifC03(t *testing.T) {
 	hdrv.Main(t, &hdrv.Harness{
 		ID: "C03", Gen: hcGenC03, New: func() interface{} { return &hcScenario{} }, Exec: hcExec, MaxSteps: 400000,
-		Rule: "scenario = chain configuration (IP/host-name server, keepHost, compression minLength, Request/ResponseAdaptor, buffered/stream limits, per-direction segmentation and latency) + 1-3 raw clients x 1-4 exchanges (method, path, query, header sets incl. hop-by-hop and Connection tokens, bodies declared/chunked, backend status/headers/body declared/chunked/gzip, backend reset mid-body); " +
+		Rule: "scenario = chain configuration (IP/host-name server, keepHost, compression minLength, Request/ResponseAdaptor, buffered/stream limits, per-direction segmentation and latency) + 1-3 raw clients x 1-4 exchanges (method, path, query, header sets incl. hop-by-hop and Connection tokens, bodies declared/chunked, backend status/headers/body declared/chunked/gzip, backend reset mid-body, gzip-labelled bodies that are cut short or carry a wrong CRC) + optionally retry policy, pool memory cache, a mirror pool whose backend is healthy/slow/resetting/answering big/down, servers delivered by the service registry; methods include HEAD; " +
 			"non-trivial = at least 2 exchanges completed; distinct = distinct schedule traces",
 		Real: hcReal, Stub: hcStub,
 		Assumptions: []string{"hop-by-hop removal is asserted on the request side only (the statement names it there)", "headers the Go transport/server may add are allow-listed: Accept-Encoding, User-Agent, Content-Length, Date, Content-Type sniffing",
@@ -811,7 +909,7 @@ func TestVerifC03(t *testing.T) {
 func TestVerifC07(t *testing.T) {
 	hdrv.Main(t, &hdrv.Harness{
 		ID: "C07", Gen: hcGenC07, New: func() interface{} { return &hcScenario{} }, Exec: hcExec, MaxSteps: 400000,
-		Rule: "scenario = clientMaxBodySize at server/path level and serverMaxBodySize at proxy/pool level drawn from {0,-1,1,10,100,1000,4096} + exchanges whose request and response body sizes sit on and around the effective limits (declared or chunked; backend declaring more than it sends), per-direction segmentation/latency; " +
+		Rule: "scenario = clientMaxBodySize at server/path level and serverMaxBodySize at proxy/pool level drawn from {0,-1,1,10,100,1000,4096}, route cache sizes {0,1,2,50}, one or two path rules (path-level limit on /up only), optionally a hot update of all four limits between two rounds of exchanges (new Pipeline generation inherits, mux reloads; second round also sits around the old limits) + exchanges whose request and response body sizes sit on and around the effective limits (declared or chunked; backend declaring more than it sends), per-direction segmentation/latency; " +
 			"non-trivial = at least 2 exchanges; distinct = distinct schedule traces",
 		Real: hcReal, Stub: hcStub,
 		Assumptions: []string{"request bodies that lie about their own length are not generated (the statement speaks of short *backend* bodies)", "the 4 MiB default limit is exercised only in the thorough tier (2% of runs)"},
